@@ -29,7 +29,9 @@ BOUND = {
 }
 CHUNK = 128
 
-BAD = ['fail', 'error', 'uxs', 'sub:1,0,1', 'sub:0,1,1', 'body+teardown', 'setup_err']
+BAD = ['fail', 'error', 'uxs', 'sub:1,0,1', 'sub:0,1,1', 'body+teardown', 'setup_err',
+       # failing tests whose str() reads like a report header / is all digits
+       {'s': 'fail', 'strv': '7 0 0'}, {'s': 'error', 'strv': '1 0 0'}]
 # bad in one --repeat iteration only (first / second execution in the process)
 BAD_REP = ['fail@1', 'error@1', 'fail@2', 'uxs', 'sub:1,0,1']
 # ways a test module can fail to be imported (real discovery, real processes)
